@@ -654,6 +654,10 @@ impl<'lexer> Lexer<'lexer> {
     // now the `parts` vector contains all parts of the longest possible name,
     // now must be decides what kind of name it is, by checking the parsing scope
 
+    // a type name is expected only until the next name is consumed, whatever this name turns out to be
+    let type_name_expected = self.type_name;
+    self.type_name = false;
+
     // ------------------------------------------------------------------------
     // tweak with name of the `item` in filter
     // ------------------------------------------------------------------------
@@ -704,7 +708,7 @@ impl<'lexer> Lexer<'lexer> {
     // ------------------------------------------------------------------------
     // the type name is the longest sequence of leading parts that makes a built-in type name,
     // what follows it (an operator, a keyword, another name) is returned to the input
-    if self.type_name {
+    if type_name_expected {
       let mut part_count = parts.len();
       while part_count > 0 {
         let type_name: Name = parts[..part_count].to_vec().into();
@@ -712,7 +716,6 @@ impl<'lexer> Lexer<'lexer> {
           type_name.to_string().as_str(),
           "Any" | "Null" | "boolean" | "number" | "string" | "date" | "date and time" | "time" | "years and months duration" | "days and time duration"
         ) {
-          self.type_name = false;
           self.position = consumed_positions[part_count - 1] + 1;
           return Ok((TokenType::BuiltInTypeName, TokenValue::BuiltInTypeName(type_name)));
         }
